@@ -121,3 +121,11 @@ Example C11_example :
   fst (run q0 evs) = repeat Fine 15 /\
   answers (snd (run q0 evs)) = [(4, AErr); (1, AOk); (2, AOk); (3, AOk)]%nat.
 Proof. vm_compute. split; reflexivity. Qed.
+
+(* every remaining property theorem of this file *)
+Print Assumptions C11_heapify_keeps_invariant.
+Print Assumptions C11_heapify_permutes.
+Print Assumptions C11_heap_push_ordered.
+Print Assumptions C11_root_is_minimum.
+Print Assumptions C11_heaps_ordered_initially.
+Print Assumptions C11_initial_state_good.
